@@ -13,7 +13,8 @@ Layout choices (they change the bytes, never the meaning): UTF-8 or UTF-16 for e
 kinds of string pool, per type chunk the entry-offset array layout (plain / FLAG_OFFSET16 /
 FLAG_SPARSE) and whether a ResTable_typeSpec chunk precedes it.
 Fixed by this encoder: 288-byte package header, 64-byte ResTable_config, entry bodies stored in
-slot order, no style spans, one-byte / one-unit string length prefixes (strings shorter than 128).
+slot order, no style spans, strings shorter than 0x8000 UTF-16 units and 0x8000 UTF-8 bytes (one-unit
+UTF-16 length prefix, one- or two-byte UTF-8 length prefixes).
 -/
 import AgVerif.Spec.Arsc
 namespace AgVerif.Spec.Arsc
@@ -32,11 +33,15 @@ def utf8 (c : Nat) : List Nat :=
 
 def utf8s (s : List Nat) : List Nat := s.flatMap utf8
 
-/-- UTF-16 pool string: u16 length in code units, the units, u16 0 -/
+/-- UTF-16 pool string: u16 length in code units (below 0x8000: one unit), the units, u16 0 -/
 def encStr16 (s : List Nat) : List Nat := enc16 s.length ++ s.flatMap enc16 ++ [0, 0]
 
-/-- UTF-8 pool string: u8 length in UTF-16 units, u8 length in bytes, the bytes, u8 0 -/
-def encStr8 (s : List Nat) : List Nat := [s.length, (utf8s s).length] ++ utf8s s ++ [0]
+/-- a length below 0x8000 in a UTF-8 pool: one byte below 0x80, else two bytes with the high bit of
+    the first set -/
+def encLen8 (n : Nat) : List Nat := if n < 0x80 then [n] else [0x80 + n / 256, n % 256]
+
+/-- UTF-8 pool string: length in UTF-16 units, length in bytes, the bytes, u8 0 -/
+def encStr8 (s : List Nat) : List Nat := encLen8 s.length ++ encLen8 (utf8s s).length ++ utf8s s ++ [0]
 
 def encStr (u8 : Bool) (s : List Nat) : List Nat := if u8 then encStr8 s else encStr16 s
 
@@ -199,7 +204,7 @@ def encTable (l : Layout) (t : Table) : List Nat :=
 
 def bmp (c : Nat) : Bool := c < 0x10000 && !(0xD800 ≤ c && c < 0xE000)
 
-def wfStr (s : List Nat) : Bool := s.length < 128 && (utf8s s).length < 128 && s.all bmp
+def wfStr (s : List Nat) : Bool := s.length < 0x8000 && (utf8s s).length < 0x8000 && s.all bmp
 
 def wfValue (v : Nat × Nat) : Bool := v.1 < 256 && v.2 < 4294967296
 
